@@ -470,7 +470,7 @@ def recs(forest: List[dict]) -> List[str]:
             out.append(f"S{e['k']}:{v}:{b(enS)}{b(enR)}:{e['load1']}")
         else:
             enS = e["enS"] if crossed else e["enS0"]
-            out.append(f"W{e['k']}:{v}:{b(enS)}:{','.join(str(i) for i in (e['rcv'] if crossed else []))}:{e['load1']}")
+            out.append(f"W{e['k']}:{v}:{b(enS)}:{','.join(str(i) for i in (sorted(e['rcv']) if crossed else []))}:{e['load1']}")
     return out
 
 
@@ -518,6 +518,8 @@ def apply_op(w: World, op: list, t: List[int]):
         _burst(w, op[1], op[2], op[3], op[4])
     elif kind == "ftp":
         _ftp(w, op[1], op[2])
+    elif kind == "wburst":
+        _wburst(w, op[1], op[2], op[3])
     elif kind == "nic":
         iface = w.ifaces[op[1]]
         (iface.enable if op[2] == "enable" else iface.disable)()
@@ -563,6 +565,19 @@ def _burst(w: World, src: str, dst: str, length: int, count: int):
                   ip=IPPacket(src_ip_address=nic.ip_address, dst_ip_address=ip, protocol=_proto("UDP")),
                   udp=UDPHeader(src_port=_port("NTP"), dst_port=_port("NTP")), payload="x" * length)
         nic.send_frame(f)
+
+
+def _wburst(w: World, router: str, length: int, count: int):
+    """`count` hand-made broadcast UDP frames pushed straight into a wireless access point (enabled or not)."""
+    from primaite.simulator.network.transmission.data_link_layer import EthernetHeader, Frame
+    from primaite.simulator.network.transmission.network_layer import IPPacket
+    from primaite.simulator.network.transmission.transport_layer import UDPHeader
+    ap = w.ifaces[f"{router}:1"]
+    for _ in range(count):
+        f = Frame(ethernet=EthernetHeader(src_mac_addr=ap.mac_address, dst_mac_addr="ff:ff:ff:ff:ff:ff"),
+                  ip=IPPacket(src_ip_address=ap.ip_address, dst_ip_address=str(ap.ip_network.broadcast_address), protocol=_proto("UDP")),
+                  udp=UDPHeader(src_port=_port("NTP"), dst_port=_port("NTP")), payload="x" * length)
+        ap.send_frame(f)
 
 
 _FTP_N = [0]
@@ -811,6 +826,8 @@ def gen_case(rng: Rng, max_ops: int = 14) -> dict:
         elif r < 38:
             ip = rng.choice(["192.168.0.77", "192.168.0.99"]) if rng.chance(1, 2) else None
             ops.append(["arp", a, ip or "192.168.0.%d" % rng.range(2, 5)])
+        elif r < 44 and kind == "wireless":
+            ops.append(["wburst", "wr%d" % rng.below(len(hosts)), rng.choice([0, 10, 100, 300, 1000]), rng.choice([1, 2, 3, 6])])
         elif r < 58:
             ops.append(["burst", a, rng.choice([b, b, "bcast"]), rng.choice([0, 10, 100, 300, 1000, 5000]), rng.choice([1, 2, 3, 6, 12])])
         elif r < 70:
@@ -823,6 +840,8 @@ def gen_case(rng: Rng, max_ops: int = 14) -> dict:
             ops.append(["ftp", rng.choice([100, 1000, 5000, 100000, 10 * 10 ** 6]), None])
         elif topo.get("tripwire"):
             src = rng.choice([h for h in hosts if h != topo["tripwire"]["host"]])
+            if rng.chance(1, 2):  # warm the ARP cache so that the payload really travels
+                ops.append(["ping", src, topo["tripwire"]["host"], 1])
             ops.append(["trip", src, topo["tripwire"]["host"], rng.choice(["trip-off", "trip-on", "trip-flap"])])
         else:
             ops.append(["ping", a, b, 1])
